@@ -29,9 +29,7 @@ fn gen(args: &Args, emit: &mut dyn FnMut(Value)) {
                             // a second warm-up and an update after caching
                             ops.push(json!(["c", 1, Value::Null]));
                             ops.push(json!(["r", format!("i{}", sub[0])]));
-                            for m in ["beh", "snap"] {
-                                emit(json!({"mode": m, "ic": false, "unique": false, "ops": ops, "hay": hay, "exh": true}));
-                            }
+                            emit_modes(emit, false, false, &ops, &hay, true, &["beh", "snap", "real"]);
                         }
                     }
                 }
@@ -45,9 +43,7 @@ fn gen(args: &Args, emit: &mut dyn FnMut(Value)) {
         let nops = rng.range(3, 16);
         let ops = history(&pool, unique, &mut rng, nops, 8);
         let hay = haystacks(&pool, &mut rng, 8);
-        for m in ["beh", "snap"] {
-            emit(json!({"mode": m, "ic": ic, "unique": unique, "ops": ops, "hay": hay}));
-        }
+        emit_modes(emit, ic, unique, &ops, &hay, false, &["beh", "snap", "real"]);
     }
 }
 
